@@ -1456,7 +1456,128 @@ def search(R, name, width, depth, max_states):
             'states': len(seen), 'capped': capped}
 
 
+# ------------------------------------------------------------------------------------------------------
+# transplant family: a copy of a child of one loop instance added (add_node) to ANOTHER instance of the same loop.
+# Law: the added node lives in the target -- '../P' from it means 'P' from the target, for reading, writing and deleting;
+# the source instance is not touched.  (The BFS above only ever adds a copy under the parent its source has.)
+TRANSPLANT = [('837p', '2300', '2400'), ('834', '2000', '2300')]
+
+
+def _fresh(doc, loop):
+    import pyx12.x12context, pyx12.params, pyx12.error_handler
+    rd = pyx12.x12context.X12ContextReader(pyx12.params.params(), pyx12.error_handler.errh_null(), io.StringIO(TEXT[doc]))
+    for t in rd.iter_segments(loop):
+        if t.id == loop:
+            return t
+    return None
+
+
+def _segs(n):
+    return [d['segment'].format() for d in n.iterate_segments()]
+
+
+def transplant_cases():
+    out = []
+    for doc, loop, inst in TRANSPLANT:
+        t = _fresh(doc, loop)
+        insts = list(t.select(inst))
+        for a in range(len(insts)):
+            for b in range(len(insts)):
+                if a == b:
+                    continue
+                for ci, c in enumerate(insts[a].children):
+                    if ci == 0:
+                        continue            # the anchor segment opens the instance
+                    out.append({'kind': 'transplant', 'doc': doc, 'loop': loop, 'inst': inst, 'a': a, 'b': b, 'child': ci})
+    return out
+
+
+def run_transplant(case):
+    """-> [(key, msg)]"""
+    out = []
+    sids_all = None
+    for law in ('read', 'write', 'delete'):
+        t = _fresh(case['doc'], case['loop'])
+        insts = list(t.select(case['inst']))
+        A, B = insts[case['a']], insts[case['b']]
+        c = A.children[case['child']]
+        where = '%s: copy of child %d (%s) of %s #%d added to %s #%d' % (case['doc'], case['child'], c.id, case['inst'], case['a'] + 1, case['inst'], case['b'] + 1)
+        a0 = _segs(A)
+        st, K = call(lambda: c.copy())
+        if st == 'exc':
+            return [('C10|copy|raises %s@%s' % (type(K).__name__, core.where(K)), where + ': copy() raised %r' % (K,))]
+        st, r = call(lambda: B.add_node(K))
+        if st == 'exc':
+            return [('C10|add_node|raises %s@%s' % (type(r).__name__, core.where(r)), where + ': add_node raised %r' % (r,))]
+        if _segs(A) != a0:
+            out.append(('C10|transplant|source instance changed by add_node', where + ': %s' % diff_msg(_segs(A), a0)))
+            return out
+        # direct child segments of the target and of the source, by id
+        bsegs = [x for x in B.children if x.type == 'seg']
+        sids = []
+        for x in list(bsegs) + [y for y in A.children if y.type == 'seg']:
+            if x.id not in sids:
+                sids.append(x.id)
+        if law == 'read':
+            for sid in sids:
+                for meth in ('exists', 'count'):
+                    g1 = call(lambda: getattr(K, meth)('../' + sid)); g2 = call(lambda: getattr(B, meth)(sid))
+                    if g1[0] == 'exc' or g2[0] == 'exc' or g1[1] != g2[1]:
+                        out.append(('C10|transplant|../ from the added node does not resolve in its new parent', where + ": K.%s('../%s') = %r, target.%s('%s') = %r" % (meth, sid, g1[1], meth, sid, g2[1])))
+                for e in (1, 2, 3):
+                    pth = '%s%02d' % (sid, e)
+                    g1 = call(lambda: K.get_value('../' + pth)); g2 = call(lambda: B.get_value(pth))
+                    if g1[0] != g2[0] or (g1[0] == 'ok' and g1[1] != g2[1]):
+                        out.append(('C10|transplant|../ from the added node does not resolve in its new parent', where + ": K.get_value('../%s') = %r, target.get_value('%s') = %r" % (pth, g1[1], pth, g2[1])))
+        elif law == 'write':
+            for sid in [x.id for x in bsegs][1:2] + [x.id for x in bsegs][-1:]:
+                pth = '%s02' % sid
+                g = call(lambda: K.set_value('../' + pth, VAL))
+                if g[0] == 'exc':
+                    out.append(('C10|transplant|set_value through ../ raises', where + ": K.set_value('../%s') raised %r" % (pth, g[1])))
+                    continue
+                if _segs(A) != a0:
+                    out.append(('C10|transplant|set_value through ../ edits the source instance', where + ": after K.set_value('../%s'): %s" % (pth, diff_msg(_segs(A), a0))))
+                    break
+                g2 = call(lambda: B.get_value(pth))
+                if g2[0] == 'exc' or g2[1] != VAL:
+                    out.append(('C10|transplant|set_value through ../ not visible in the new parent', where + ": target.get_value('%s') = %r after K.set_value('../%s', %r)" % (pth, g2[1], pth, VAL)))
+        else:
+            for sid in [x.id for x in bsegs][1:2]:
+                nb = call(lambda: B.count(sid))
+                g = call(lambda: K.delete_node('../' + sid))
+                if _segs(A) != a0:
+                    out.append(('C10|transplant|delete_node through ../ edits the source instance', where + ": after K.delete_node('../%s'): %s" % (sid, diff_msg(_segs(A), a0))))
+                    break
+                nb2 = call(lambda: B.count(sid))
+                if g[0] == 'ok' and nb[0] == 'ok' and nb2[0] == 'ok' and nb[1] > 0 and nb2[1] != nb[1] - 1:
+                    out.append(('C10|transplant|delete_node through ../ not visible in the new parent', where + ": target.count('%s') %r -> %r" % (sid, nb[1], nb2[1])))
+        if out:
+            break
+    seen = set(); res = []
+    for k, m in out:
+        if k not in seen:
+            seen.add(k); res.append((k, m))
+    return res
+
+
+def work_transplant(cases):
+    _bind()
+    P = core.Part()
+    for case in cases:
+        P.n += 1
+        P.out('transplant|%s|%s' % (case['doc'], 'forward' if case['a'] < case['b'] else 'backward'))
+        for k, m in run_transplant(case):
+            P.bad(k, case, m)
+    return P
+
+
 def evaluate(case):
+    if case.get('kind') == 'transplant':
+        _bind()
+        for name in CFG:
+            setup(name)
+        return run_transplant(case)
     hist = [tup(e) for e in case['hist']]
     ms, im = replay(hist[:-1])
     viols, outcome = step(ms, im, hist[-1])
@@ -1482,7 +1603,11 @@ def run(R):
     for name, width, depth in plan:
         stats.append(search(R, name, width, depth, max_states=400000))
     R.cov['searches'] = stats
+    tc = transplant_cases()
+    R.pmap(work_transplant, core.chunks(tc, 8))
+    R.cov['transplant_cases'] = len(tc)
     R.bounds = {
+        'transplant': 'every (source instance, other instance, non-anchor child) of the repeated loops %r: copy the child, add_node it to the other instance, then read (exists/count/get_value of every direct child segment id of both instances through ../), write and delete through ../ -- each law on a fresh tree' % (TRANSPLANT,),
         'trees': {k: 'iter_segments(%s) of document %s, edited node = %s' % (v['loop'], v['doc'], '/'.join(v['base']) or 'the tree root') for k, v in CFG.items()},
         'searches': ['%s alphabet=%s(%d events) depth=%d mutating calls + query battery at every state' % (n, w, len(alphabet(n, w)), d) for n, w, d in plan],
         'handles': 'tree, first child loop, anchor segment node, copy of tree, first child loop of the copy, copy of the child loop (one copy per history)',
